@@ -318,7 +318,7 @@ class AGraph(Equation):
             return f_of_x
         except (ArithmeticError, OverflowError, ValueError, FloatingPointError) as err:
             warnings.warn(f"{err} in stack evaluation")
-            return np.full(x.shape, np.nan)
+            return np.full((x.shape[0], 1), np.nan)
 
     def evaluate_equation_with_x_gradient_at(self, x):
         """Evaluate `AGraph` and get its derivatives.
